@@ -360,15 +360,15 @@ def replay(case, rd):
 
 
 # ---- TLC chunks ------------------------------------------------------------------------------------------------
-ALL_SHAPES = ("scalar", "string", "cat", "dense", "densecat", "nested", "sparse", "sparsecat", "sparsecatk", "sparsenest")
+ALL_SHAPES = ("scalar", "string", "cat", "dense", "densecat", "nested", "sparse", "sparsecat", "sparsecatk", "sparsenest", "sparsepart")
 
 
 def chunks(ctx):
     """(name, MaxLen, levels, shapes, flavours, envs, check Idempotent)"""
     if ctx.quick:
         return [("len1", 1, ("full", "off", "off"), ALL_SHAPES, ("igl", "logged"), ("diff",), True),
-                ("len2", 2, ("tiny", "tiny", "off"), ("scalar", "cat", "densecat", "nested", "sparsecat"), ("iglmix", "logged"), ("same",), False)]
-    return [("len1", 1, ("full", "off", "off"), ALL_SHAPES, ("sim", "igl", "iglmix", "logged"), ("one", "same", "diff"), True),
+                ("len2", 2, ("tiny", "tiny", "off"), ("scalar", "cat", "densecat", "nested", "sparsecat", "sparsepart"), ("iglmix", "logged"), ("same",), False)]
+    return [("len1", 1, ("full", "off", "off"), ALL_SHAPES, ("sim", "igl", "iglmix", "logged"), ("one", "same", "diff", "samediff"), True),
             ("len2", 2, ("lite", "lite", "off"), ALL_SHAPES, ("igl", "iglmix", "logged"), ("same", "diff"), False),
             ("len3", 3, ("tiny", "tiny", "tiny"), ALL_SHAPES, ("iglmix", "logged"), ("diff",), False)]
 
@@ -379,7 +379,7 @@ def tla_set(xs): return "{" + ", ".join('"%s"' % x for x in xs) + "}"
 def run_chunk(ctx, name, maxlen, levels, shapes, flavours, envs, idem):
     sub = {"MaxLen = 1": "MaxLen = %d" % maxlen, 'Level1 = "full"': 'Level1 = "%s"' % levels[0], 'Level2 = "off"': 'Level2 = "%s"' % levels[1],
            'Level3 = "off"': 'Level3 = "%s"' % levels[2],
-           'Shapes = {"scalar", "string", "cat", "dense", "densecat", "nested", "sparse", "sparsecat", "sparsecatk", "sparsenest"}': "Shapes = " + tla_set(shapes),
+           'Shapes = {"scalar", "string", "cat", "dense", "densecat", "nested", "sparse", "sparsecat", "sparsecatk", "sparsenest", "sparsepart"}': "Shapes = " + tla_set(shapes),
            'Flavours = {"sim", "igl", "iglmix", "logged"}': "Flavours = " + tla_set(flavours),
            'Envs = {"one", "same", "diff"}': "Envs = " + tla_set(envs)}
     if not idem: sub["INVARIANT Idempotent"] = ""
